@@ -19,7 +19,9 @@ pub fn dispatch(op: &str, _ty: &str, args: &[Arg]) -> Option<String> {
             match o {
                 Arg::N => w2(res_arr(&a.unpack_bits(ax, cnt, None::<BitOrder>)), res_arr(&okr(&a).unpack_bits(ax, cnt, None::<BitOrder>))),
                 Arg::Z(k) => w2(res_arr(&a.unpack_bits(ax, cnt, Some(if *k == 1 { BitOrder::Little } else { BitOrder::Big }))), res_arr(&okr(&a).unpack_bits(ax, cnt, Some(if *k == 1 { BitOrder::Little } else { BitOrder::Big })))),
-                Arg::S(s) => w2(res_arr(&a.unpack_bits(ax, cnt, Some(std::str::from_utf8(s).ok()?))), res_arr(&okr(&a).unpack_bits(ax, cnt, Some(std::str::from_utf8(s).ok()?)))),
+                // the order spelled as &str and as an owned String (two separate parsers): both forms, both receivers
+                Arg::S(s) => w2(w2(res_arr(&a.unpack_bits(ax, cnt, Some(std::str::from_utf8(s).ok()?))), res_arr(&a.unpack_bits(ax, cnt, Some(String::from_utf8(s.clone()).ok()?)))),
+                                w2(res_arr(&okr(&a).unpack_bits(ax, cnt, Some(std::str::from_utf8(s).ok()?))), res_arr(&okr(&a).unpack_bits(ax, cnt, Some(String::from_utf8(s.clone()).ok()?))))),
                 _ => return Some("bad".into()),
             }
         }
@@ -29,7 +31,8 @@ pub fn dispatch(op: &str, _ty: &str, args: &[Arg]) -> Option<String> {
             match o {
                 Arg::N => w2(res_arr(&a.pack_bits(ax, None::<BitOrder>)), res_arr(&okr(&a).pack_bits(ax, None::<BitOrder>))),
                 Arg::Z(k) => w2(res_arr(&a.pack_bits(ax, Some(if *k == 1 { BitOrder::Little } else { BitOrder::Big }))), res_arr(&okr(&a).pack_bits(ax, Some(if *k == 1 { BitOrder::Little } else { BitOrder::Big })))),
-                Arg::S(s) => w2(res_arr(&a.pack_bits(ax, Some(String::from_utf8(s.clone()).ok()?))), res_arr(&okr(&a).pack_bits(ax, Some(String::from_utf8(s.clone()).ok()?)))),
+                Arg::S(s) => w2(w2(res_arr(&a.pack_bits(ax, Some(std::str::from_utf8(s).ok()?))), res_arr(&a.pack_bits(ax, Some(String::from_utf8(s.clone()).ok()?)))),
+                                w2(res_arr(&okr(&a).pack_bits(ax, Some(std::str::from_utf8(s).ok()?))), res_arr(&okr(&a).pack_bits(ax, Some(String::from_utf8(s.clone()).ok()?))))),
                 _ => return Some("bad".into()),
             }
         }
